@@ -280,3 +280,52 @@ Definition positional_sane (s : tsig) : bool :=
   end.
 
 Definition full_guard (s : tsig) : bool := guard s && positional_sane s.
+
+(** ** help= (a decorator option of the property's quantifier)
+
+    A help text may be given for a parameter under its Python spelling or
+    under its command-line spelling.  Each text ends up on the argument of the
+    parameter it names; a key that names no parameter, or two keys naming the
+    same parameter, make the task unusable (documented: ValueError "Help field
+    was set for param(s) that don't exist"). *)
+Definition shown_name (n : string) : string :=
+  if contains_char "_"%char n then dashed n else n.
+
+Definition key_names (k : string) (p : param) : bool :=
+  String.eqb k (p_name p) || String.eqb k (shown_name (p_name p)).
+
+Definition help_wf (s : tsig) (h : list (string * string)) : bool :=
+  negb (has_dup (map fst h)) &&
+  forallb (fun kv => Nat.eqb (List.length (filter (key_names (fst kv)) (s_params s))) 1) h &&
+  forallb (fun p => Nat.leb (List.length (filter (fun kv => key_names (fst kv) p) h)) 1) (s_params s).
+
+Definition expected_help (h : list (string * string)) (p : param) : option string :=
+  match find (fun kv => key_names (fst kv) p) h with
+  | Some kv => Some (snd kv)
+  | None => None
+  end.
+
+(** [ho]: (python-friendly name, help text) of every argument, as observed *)
+Definition help_ok (s : tsig) (h : list (string * string)) (obs : result cli)
+           (ho : list (string * option string)) : bool :=
+  if dashed_clash s then true           (* judged by [spec_ok]: refusal *)
+  else if help_wf s h then
+    match obs with
+    | Ok _ =>
+        forallb (fun p => match aget (p_name p) ho with
+                          | Some t => opt_eqb String.eqb t (expected_help h p)
+                          | None => false
+                          end) (s_params s)
+    | Err _ => false
+    end
+  else match obs with Err e => err_eqb e EValue | Ok _ => false end.
+
+(** the whole judgement of one task: the CLI, the help texts, and -- "the
+    keyword arguments produced for a task always bind to its function" -- the
+    call with those keyword arguments hands every parameter its value
+    ([calls], observed by really calling the task) *)
+Definition spec_task (s : tsig) (h : list (string * string)) (obs : result cli)
+           (ho : list (string * option string)) (calls : bool) : bool :=
+  (if negb (dashed_clash s) && negb (help_wf s h) then true else spec_ok s obs) &&
+  help_ok s h obs ho &&
+  match obs with Ok _ => calls | Err _ => true end.
